@@ -13,7 +13,7 @@ import argparse, json, os, re, sys, time, concurrent.futures as cf
 ROOT = os.path.dirname(os.path.dirname(os.path.abspath(__file__)))
 sys.path.insert(0, os.path.join(ROOT, 'lib'))
 import props as P
-import verus_run, kani_run
+import verus_run, kani_run, scan
 
 BASELINE = os.path.join(ROOT, 'baseline', 'obligations.json')
 KNOWN = os.path.join(ROOT, 'KNOWN_FINDINGS.txt')
@@ -147,13 +147,37 @@ def main():
     elif groups and args.no_kani:
         undecided_reasons.append('kani skipped (--no-kani)')
 
+    # ---------------------------------------------------------------- frame scan (mechanical frame condition)
+    frame = []
+    if cfg.get('frame_scan'):
+        verified = set()
+        for u in units:
+            for m in unit_res[u].metas:
+                if m['mode'] == 'verified':
+                    own = m.get('owner')
+                    ty = None
+                    if own:
+                        mm = re.search(r'(\w+)(?:<[^>]*>)?\s*$', own)
+                        ty = mm.group(1) if mm else None
+                    nm = re.search(r'(\w+)$', m['name']).group(1)
+                    verified.add('%s %s::%s' % (m['file'], ty or '', nm))
+        allow = scan.load_allow(os.path.join(ROOT, 'contracts', 'frame_allow.txt'))
+        frame = scan.frame_scan(os.environ.get('VERIF_REPO', '/repo'), prop, verified, allow)
+        for fo in frame:
+            if fo['status'] == 'allowed':
+                assumptions.add('frame exception %s %s: %s' % (fo['file'], fo['fn'], fo['detail']))
+            elif fo['status'] in ('failed', 'undecided'):
+                obligations.append(dict(id=fo['id'], backend='frame-scan', kind='frame condition (syntactic)', status=fo['status'],
+                                        detail=fo['detail'], fn=fo['fn'], file=fo['file'], lines=[fo['line'], fo['line']], unit='-',
+                                        errors=[dict(rendered=fo['detail'])], frame=True))
+
     if only_obl:
         obligations = [o for o in obligations if o['id'] == only_obl]
         if not obligations:
             print('obligation %s is no longer generated from the working tree' % only_obl); sys.exit(2)
 
     # ---------------------------------------------------------------- vacuity guard: obligation set vs baseline
-    ids = sorted(o['id'] for o in obligations)
+    ids = sorted(o['id'] for o in obligations if not o.get('frame'))
     base = {}
     if os.path.exists(BASELINE):
         base = json.load(open(BASELINE))
@@ -185,7 +209,7 @@ def main():
             known_hits.append((o, known_ids[o['id']]))
         else:
             violations.append(o)
-    proved = [o for o in obligations if not o.get('bounded')]
+    proved = [o for o in obligations if not o.get('bounded') and not o.get('frame')]
     bounded = [o for o in obligations if o.get('bounded')]
     wall = time.time() - t0
 
@@ -249,6 +273,8 @@ def main():
             solver_time_ms_total=sum(v for v in solver_ms.values() if v),
             extraction_deltas=deltas,
             undecided=[dict(id=o['id'], why=o['detail'][:300]) for o in undec] + [dict(id='-', why=r[:600]) for r in undecided_reasons],
+            frame_functions_scanned=len(frame), frame_ok=sum(1 for f in frame if f['status'] == 'ok'),
+            frame_exceptions=sum(1 for f in frame if f['status'] == 'allowed'),
             not_decided=cfg.get('not_decided', []),
             known_findings=[f['text'] for _, f in known_hits],
             explanation=cfg.get('explanation', ''),
